@@ -72,11 +72,7 @@ theorem scope_afterInput {L id s} (cfg args k0 o) (h : Scope L id s) : Scope L i
   unfold afterInput
   split
   · exact scope_write _ _ h
-  · split
-    · exact scope_write _ _ h
-    · split
-      · exact scope_write _ _ h
-      · exact scope_doDiscard h
+  · exact scope_doDiscard h
 
 theorem scope_afterOutput {L id s} (alias n o) (h : Scope L id s) : Scope L id (afterOutput alias n s o) := by
   unfold afterOutput
